@@ -203,6 +203,18 @@ def run_case(dom, hist, piece, l, k, rname, pts, raw, orient, argtype, cm, expec
     m = build(dom, hist)
     ret = None
     ok = False
+    if orient == 1:
+        # call history on ONE mesh object: the end points are looked up BEFORE the refinement that creates them (second
+        # orientation of every case; the first orientation keeps the plain sequence).  A lookup may answer None or an existing
+        # vertex - either way it must not change what the lookups after the refinement answer.
+        for a in (a0, a1):
+            try:
+                pre = m.vertex_from_coords(a)
+                cnt['vfc_calls'] += 1
+                if pre is not None and not any(pre is v for v in m.vertices):
+                    out.append(('vertex-from-coords', 'tag', 'probe-returns-foreign-object', repr(pre)))
+            except Exception as ex:
+                out.append(('vertex-from-coords', 'exc', type(ex).__name__, 'probe before refinement: ' + repr(ex)))
     try:
         with horizon(HLIMIT) as hz:
             ret = m.refine_msh_bdr(a0, a1)
